@@ -29,6 +29,7 @@ type C08Case struct {
 	InitName string         `json:"init_name,omitempty"`
 	Hostile  []string       `json:"hostile,omitempty"` // hostile identifiers/comments used
 	Pairs    []string       `json:"pairs,omitempty"`   // deliberately near-colliding identifier pairs
+	Order    []int          `json:"order,omitempty"`   // order in which the main package's definitions are written (nil = generation order, uses after definitions)
 }
 
 const c08Rule = "accepted generated packages whose type, field, step, enum-symbol, union-tag, dimension and namespace names are drawn from target-language reserved words and generated-helper names in every legal casing (class, int, namespace, None, match, end, function, self, value, schema, copyTo, T_NP...), with near-colliding pairs under snake/Pascal conversion (fooBar/fooBAR...), hostile documentation comments (*/, triple quotes, trailing backslash, %, non-ASCII) x generated option sets (any subset of cpp/python/matlab/json; generateNDJson, generateHDF5, generateCMakeLists, overrideArrayHeader) and the scaffold written by `yardl init <name>` for generated names. oracle: validate exits 0 => generate exits 0 without panic; every generated .py byte-compiles and the package imports; generated C++ passes g++ -std=c++17 -fsyntax-only (when the array header is overridden, HDF5 sources excluded); no duplicate attribute in a generated Python class; no case-insensitive duplicate among generated MATLAB files. non-trivial = at least one hostile identifier/comment or a non-default option; distinct = hash of model + options"
@@ -45,6 +46,20 @@ func hostilize(t *rapid.T, p *model.Package, c *C08Case) {
 		for tries := 0; tries < 6; tries++ {
 			n := pool[rapid.IntRange(0, len(pool)-1).Draw(t, label)]
 			if !used[n] {
+				// names that differ only in capitalisation (DateTime/Datetime) are the subject of the
+				// finding C08-case-conversion-collision: not drawn together while it is open
+				clash := false
+				if core.Open("C08-case-conversion-collision") {
+					for u := range used {
+						if strings.EqualFold(u, n) {
+							clash = true
+						}
+					}
+				}
+				if clash {
+					core.Rec("C08").Class("excluded:names-differing-only-in-case")
+					continue
+				}
 				used[n] = true
 				return n, true
 			}
@@ -230,9 +245,14 @@ func genC08(t *rapid.T) C08Case {
 	cfg.MaxDefs = 6
 	cfg.RootNamespace = "Mdl"
 	cfg.Comments = false
+	cfg.ArgRefPct = 20
 	applyRuntimeExclusionsFor(&cfg, "C08")
 	p := model.GenPackage(t, &cfg)
 	c := C08Case{Kind: "model", Pkg: p}
+	if rapid.Bool().Draw(t, "shuffleDefs") {
+		// definitions may be written in any order: a type may be used before it is defined
+		c.Order = rapid.Permutation(seq(len(p.Defs))).Draw(t, "defOrder")
+	}
 	if rapid.IntRange(0, 3).Draw(t, "hostile") != 0 {
 		hostilize(t, p, &c)
 	}
@@ -318,6 +338,14 @@ func c08Known(c C08Case, msg string) string {
 			}
 		}
 	}
+	if strings.Contains(msg, "adl_serializer<std::variant") && strings.Contains(msg, "after instantiation") {
+		// a union that has another (generic, aliased) union as a case: the NDJSON serializer of the
+		// inner variant is specialised after the outer one has already used it
+		return "C08-cpp-ndjson-union-case-is-generic-union-alias"
+	}
+	if strings.Contains(msg, "TypeError: Too few arguments for <class") || strings.Contains(msg, "TypeError: Too many arguments for <class") {
+		return "C08-python-generic-argument-expansion"
+	}
 	c08WordsOnce.Do(loadC08Words)
 	for _, h := range c.Hostile {
 		if i := strings.Index(h, ":"); i > 0 {
@@ -361,7 +389,7 @@ func checkC08(c C08Case) *Fail {
 		}
 		return nil
 	}
-	l := model.EmitLayout(c.Pkg, model.EmitOptions{ExtraManifest: c.Manifest})
+	l := model.EmitLayout(c.Pkg, model.EmitOptions{ExtraManifest: c.Manifest, Order: c.Order})
 	sut.WriteLayout(root, l)
 	pkg := filepath.Join(root, "main")
 	rv := sut.Yardl(pkg, "validate")
